@@ -9,26 +9,26 @@ import re
 import sys
 
 BOUNDS = {
-    "C01": "≈ 1 000 → ≈ 7 200 types (thorough adds all 3-field structs over leaf and level-1 representatives); 4 value alphabets incl. `long`; 28 input forms (plain data, 8 ndarray layouts incl. non-native byte order, 15 xobject sources incl. views / twins / all-dynamic class, string capacities, extents as int / int8 / int16); 14 placements; array classes made by indexing and (sub-universe) declared; twin-item process histories",
-    "C02": "≈ 470 → ≈ 1 000 types in batches of 24; 3 value alphabets + bytearray-backed objects; every path x index tuple; relocation between the two halves of the calls; every other call through a rebuilt view; name-twin shards in both orders",
-    "C03": "construction as C01 (18 forms, 7 placements, complementary poisons) + histories depth 1 → 3 on 39 → 58 types",
-    "C04": "240 configurations (2 kinds x 5 capacities x 6 alignments x 4 grow steps), depth 3 + allocate look-ahead (4 on 8) → depth 5 on 120 + 5/6 on 24; sizes {0,1,3,8,13,16}, grows {0,1,8}, ≤ 4 live regions; + 12 configurations with sizes given as uint8 / int8 / int16 / uint16 / int64 near the end of their range; many-growths regime",
-    "C05": "as C01 with 11 forms + decode after every legal assignment (depth 1 → 2)",
-    "C06": "whole universe at depth 0 + histories depth 1 → 2; long-lived handle and view read before and after every event",
-    "C07": "cffi: every other type of C02's universe (all in thorough), 3 values per leaf and index tuple, relocation every 4th call; ASan/UBSan: every accessor on exact images",
+    "C01": "≈ 1 000 → ≈ 7 200 types (thorough adds all 3-field structs over leaf and level-1 representatives); 4 value alphabets incl. `long`; 30 input forms (plain data incl. rows given as views, 8 ndarray layouts incl. non-native byte order, 16 xobject sources incl. views / twins / all-dynamic class / children with spare room, string capacities, extents as int / int8 / int16); 16 placements incl. aligned buffers with an explicit offset / a tight hole; array classes made by indexing and (sub-universe) declared; twin-item process histories",
+    "C02": "≈ 490 → ≈ 1 020 types in batches of 24 (incl. unit and zero extents next to dynamic ones, static fields between dynamic ones); 3 value alphabets + bytearray-backed objects + odd reference distances; every path x index tuple; relocation between the two halves of the calls; every other call compared with a rebuilt view; name-twin shards in both orders; 4 declaration styles",
+    "C03": "construction as C01 (19 forms, 10 placements, complementary poisons) + histories depth 1 (2 for reference holders) → 3 on 39 → 58 types, writes through the older view; layout-twin process history",
+    "C04": "240 configurations (2 kinds x 5 capacities x 6 alignments x 4 grow steps), depth 3 + allocate look-ahead (4 on 8) → depth 5 on 120 + 5/6 on 24; sizes {0,1,3,8,13,16}, grows {0,1,8}, ≤ 4 live regions; + 12 configurations with sizes given as uint8 / int8 / int16 / uint16 / int64 near the end of their range; + 1 deep configuration (depth 7 → 8) over packed / aligned requests and frees; many-growths regime",
+    "C05": "as C01 with 12 forms + decode after every legal assignment (depth 1, 2 for union holders → 2) incl. a foreign member object bound again after it was modified",
+    "C06": "whole universe at depth 0 + histories depth 1 → 2 incl. re-split values and whole updates of the root; long-lived handle and view (and their typed windows) read before and after every event; a copy of every reached state judged like a fresh object",
+    "C07": "cffi: every other type of C02's universe (all in thorough), 6 values per float leaf (incl. 0.0 / -0.0 / 0.0) and 3 per integer leaf and index tuple, relocation every 4th call; ASan/UBSan: every accessor on exact images",
     "C08": "11 holder shapes, depth 4 (3 for two-slot holders) → 5 (4), sharded by first event; + fields declared with a default: 5 initial states x 10 events, depth 2 → 3, both default spellings",
-    "C09": "39 + reference-bearing universe types; 3 value alphabets; 7 destinations (incl. view sources); writes depth 1 → 2; a second copy from both handles after every write",
-    "C10": "39 → 58 types x {ramp} → {ramp, extreme} x {dirtyhole, grown} (+ bytearray in thorough); depth 2 → 3; forms py / ndarray / xobject from other and same buffer / views / member objects / String objects; index kinds int8 / uint8 / int16",
-    "C11": "39 → 58 types x {ramp, long} (+extreme) x 2 poisons; 13 misuse classes after 0 → 1 legal steps; constructor misuse (8 argument combinations) on the whole universe",
+    "C09": "39 + reference-bearing universe types + cyclic-order referents; 4 value alphabets; 7 destinations (incl. view sources); writes depth 1 → 2; a second copy from both handles after every write; declaration styles named-subclass / shared-fields; declared reference defaults (5 initial states x set / null histories x 5 ways of copying)",
+    "C10": "39 → 58 types x {ramp} → {ramp, extreme} x {dirtyhole, grown} (+ grown16 for reference holders, + bytearray in thorough); depth 2 → 3; forms py / ndarray / xobject from other and same buffer / views / member objects / String objects / re-split objects (refusal expected); index kinds int8 / uint8 / int16; writes through the older view",
+    "C11": "39 → 58 types x {ramp, long} (+extreme) x 2 poisons; 14 misuse classes (incl. wrong non-leading extents, re-splits, object arrays) after 0 → 1 legal steps; constructor misuse (8 argument combinations, offsets outside the buffer, refusal at a valid explicit offset, union reference from a member object) on the whole universe",
     "C12": "as C04 + TLC graph replay: 1 configuration (1 471 states, 4 524 edges) → 10 configurations (≈ 1.3 M edges)",
-    "C13": "capacities 0..10 → 0..20; 10 dtypes; 12 source kinds / layouts incl. non-native byte order; growth copies from 4 allocator states",
-    "C14": "graphs on ≤ 3 → ≤ 4 classes over 6 node kinds (incl. declared subclass of an array node), ≤ 2 → ≤ 3 `_depends_on` edges, all root subsets and orders; same-named roots",
-    "C15": "as C02's universe in batches of 16; 4 targets; text checks in a fresh process and after a CPU build; OpenCL / CUDA texts executed on the host",
-    "C16": "814 → ≈ 3 000 skeletons x 11 values of n x 8 execution contexts; kernels built with a name / a fixed thread count; set_n_threads histories; second build with same-named included files",
-    "C17": "scalar / pointer / refusal cases x 2 contexts x 2 routes (dispatcher, kernel object); xobject arrays in both buffer kinds; histories depth 4 → 5 x {serial, OpenMP, bytearray}; calls after every event",
-    "C18": "14 classes x 3 rename variants; depth 3 (2) → 4 (3); second holder, move-helper, lent nested part, nested class holding a reference; sharded by first event",
-    "C19": "16 field variants (kind x default kind) in all 1- and 2-field classes x rename x 3-7 values per field x 3 rebuild placements; class families in 6 orders + a class defined later; 1-D reference-free universe types for JSON",
-    "C20": "23 struct/array classes + 3 hybrids x 3 value alphabets x 8 groups x protocols {default} → {default, 2}; 4 context kinds (serial / OpenMP x fresh / kernels built); writes depth 1 → 2",
+    "C13": "capacities 0..10 → 0..20 on fresh and on grown buffers; 10 dtypes; 12 source kinds / layouts incl. non-native byte order; growth copies from 4 allocator states; 6 → 9 boundary sizes (64 KiB .. 3 MiB +- 1) for every byte-moving primitive",
+    "C14": "graphs on ≤ 3 → ≤ 4 classes over 6 node kinds (4 leaf kinds per struct node; hybrid nodes named as such), ≤ 2 → ≤ 3 `_depends_on` edges, all root subsets and orders; a sort before the declarations are completed; one sources list kept for all builds; every single root also as a kernel's return type; same-named roots",
+    "C15": "as C02's universe in batches of 16; 4 targets; context-restricted lines before the accessor source; text checks in a fresh process / after plain declarations with an empty configuration / after a CPU build; OpenCL / CUDA texts executed on the host",
+    "C16": "814 → ≈ 3 000 skeletons x 11 values of n x 8 execution contexts; source in a private vocabulary translated by an apply_to_source function; a piece of text listed twice; kernels built with a name / a fixed thread count; set_n_threads histories; second build with same-named included files",
+    "C17": "scalar / pointer (incl. 0-d) / refusal cases x 2 contexts x 2 routes (dispatcher, kernel object); xobject arrays in both buffer kinds; histories depth 4 → 5 x {serial, OpenMP, bytearray}; re-declaration histories of one kernel name (3 signatures, depth 3 → 4)",
+    "C18": "16 classes x 3-4 rename variants; depth 3 (2) → 4 (3); second holder (also bound through the constructor), move-helper, lent nested part, nested class holding a reference, union reference fields, forced offset coincidences between buffers; sharded by first event",
+    "C19": "20 field variants (kind x default kind) in all 1- and 2-field classes x 3 rename variants x 3-7 values per field x 2 dictionary forms x 3 rebuild placements, the object written after its dictionary was taken; class families in 6 orders + a class defined later; 1-D reference-free universe types for JSON",
+    "C20": "23 struct/array classes + 4 hybrids x 4 value alphabets x 8 groups x protocols {default, 0, 1} → + {2}; 4 context kinds (serial / OpenMP x fresh / kernels built: a kernel called before pickling and on the unpickled object); the same pickle loaded twice, second generation; writes depth 1 → 2",
 }
 
 
